@@ -33,8 +33,9 @@ ANCHORS = ["HashedIterable.__iter__", "ResultQuantifier.evaluate", "SymbolicExpr
            "ConclusionSelector.update_conclusion", "SymbolicExpression._is_duplicate_output_"]
 
 PATTERNS = ["shared_var", "shared_var2", "shared_sub", "shared_subquery", "independent", "same_query", "rule",
-            "domainless", "shared_pred", "shared_scalar", "shared_fn"]
-SHARING = {"shared_var", "shared_var2", "shared_sub", "shared_subquery", "same_query", "rule", "domainless", "shared_pred",
+            "domainless", "domainless_attr", "shared_pred", "shared_scalar", "shared_fn"]
+# a domain-less variable gets a fresh domain at every evaluate(): evaluations that share one do not interfere
+SHARING = {"shared_var", "shared_var2", "shared_sub", "shared_subquery", "same_query", "rule", "shared_pred",
            "shared_scalar", "shared_fn"}
 
 
@@ -159,6 +160,10 @@ def build_queries(spec, m, armed):
     if p == "domainless":
         x = let(m.S0, None, name="x")
         return [an(entity(x, x.a >= spec["t"])), an(entity(x))]
+    if p == "domainless_attr":
+        # the domain-less variable is reachable only through a selected expression
+        x = let(m.S0, None, name="x")
+        return [an(entity(x.name)), an(set_of([x.name, x.a]))]
     if p == "shared_scalar":
         # a variable over plain values (0 is falsy) used as a comparator operand in one query and re-bound in the other
         vals = sorted({i % 5 for i in spec["dom"]} | {0})
@@ -242,7 +247,7 @@ def key_of(r, idmap, m):
 def run(spec, ctx):
     m = ctx["m"]
     C = ctx["counters"]
-    if spec["pattern"] == "domainless":
+    if spec["pattern"] in ("domainless", "domainless_attr"):
         m.fresh_symbol_graph()
         objs = [m.S0(a=o["a"], name=o["name"]) for o in spec["world"]]
     else:
